@@ -43,10 +43,12 @@ Definition zero_out (Q : fpred) : texpr -> texpr :=
 Definition reside (r : string -> nat -> side -> side) : texpr -> texpr :=
   amap (fun a => match a with AFld l f c s al => TAt (AFld l f c (r f c s) al) | _ => TAt a end).
 
-(* minus(w) / plus(w) of an unrestricted w: MinusInterfaceOperator.eval is additive, pulls
-   numeric / constant coefficients out, sends Dn(u) to Dot(Grad(minus(u)), minus(n)) and the
-   normal vector to MinusNormalVector; _split_expr_over_interface pushes what is left through
-   grad / div / ... of an argument, so that the derivative atoms of w get the side *)
+(* minus(w) / plus(w) of an unrestricted w: MinusInterfaceOperator.eval is additive and
+   multiplicative, pulls numeric / constant coefficients out, sends Dn(u) to
+   Dot(Grad(minus(u)), minus(n)) and the normal vector to MinusNormalVector;
+   _split_expr_over_interface (_restrict_to_side) pushes what is left through powers and through
+   all algebraic / differential operators, so that every field atom of w (also the derivative
+   atoms) and every normal atom gets the side *)
 Definition restrict (s0 : side) : texpr -> texpr :=
   amap (fun a => match a with
                  | AFld l f c SNone al => TAt (AFld l f c s0 al)
@@ -94,9 +96,11 @@ Fixpoint imap (g : texpr -> texpr) (e : iex) : iex :=
      expand_avg = true : Average is expanded like Jump                    (repair dace187)
      lin_flip   = true : linear forms reverse the normal on the plus face (repair 4ecfb40)
    [cfg_found] is the code before these repairs ("TODO add sub for avg"; no reversal in the linear
-   branch); it is kept for the historical refutation lemmas only.  The third repair (6d0684b:
-   minus/plus are pushed through grad, div, ... of an argument) is what [restrict] does on
-   derivative atoms; the earlier behaviour (such terms were never split) is not modelled. *)
+   branch); it is kept for the historical refutation lemmas only.  The repairs 6d0684b (minus/plus
+   are pushed through grad, div, ... of an argument) and b51ca38 (through EVERY compound expression:
+   dot(grad(w), nn), f*w, f**2, div(grad(w)), ... - _restrict_to_side) are what [restrict] does: it is
+   a homomorphism that reaches the field atoms and the normal; the earlier behaviour (such terms
+   were never split) is not modelled. *)
 Record cfg := { expand_avg : bool; lin_flip : bool }.
 Definition cfg_found : cfg := {| expand_avg := false; lin_flip := false |}.
 Definition cfg_repaired : cfg := {| expand_avg := true; lin_flip := true |}.
@@ -315,6 +319,11 @@ Definition keep_only (u : rsym) (us : list rsym) : fpred :=
   fun f _ s => inb (f, s) us && negb (rsym_eqb (f, s) u).
 Definition piece_key (trials tests : list string) (k : key2) (E : texpr) : texpr :=
   zero_out (keep_only (snd k) (rs_of tests)) (zero_out (keep_only (fst k) (rs_of trials)) E).
+
+(* linear forms over a product space: the part of the integrand that involves only the restricted
+   test symbol k *)
+Definition piece_lin_key (tests : list string) (k : rsym) (E : texpr) : texpr :=
+  zero_out (keep_only k (rs_of tests)) E.
 
 (* how a boundary kernel on the face of side s is read in the two-sided environment:
    every function is the restriction to that side *)
